@@ -465,7 +465,7 @@ macro_rules! impl_cache_processor {
                         Ok(())
                     }
                     $item::Wait(wg) => {
-                        wg.done();
+                        wg.complete();
                         Ok(())
                     }
                 }
@@ -740,7 +740,7 @@ macro_rules! impl_cache_cleaner {
                     )),
                     $item::Delete { .. } | $item::Update { .. } => {}
                     $item::Wait(wg) => {
-                        let _ = wg.done();
+                        wg.complete();
                     }
                 }
             }
